@@ -62,6 +62,15 @@ CLAIMS.update({
                 design="7/C16", technique="Coq proof (reset lemmas over the stored-data invariant) + refutation witness by vm_compute + exact differential correspondence (run 1 / reset / run 2 / reset / run 3)",
                 note=NOTE_TB + " Partial: for first-order KBs the theorem covers the state after reset (read-equivalence), not the congruence of a whole second run; a run-2 difference without any contradiction is reported as a violation, one with a contradiction is the recorded known finding."),
 })
+
+CLAIMS.update({
+    "C11": dict(text="Theorems C11_every_group_evaluated / C11_every_instance_grouped (upward stores an aggregate for every grounding of the free variables that has an instance), C11_forall (upper = min(previous upper, Lukasiewicz conjunction of the instance uppers), lower never raised unless fully_grounded), C11_exists (dual), C11_one_false_refutes_forall; nested quantifiers compose because the outer one reads the inner one's table (same theorem, rows = inner table). Holds for the tree after fix commits 1c2eb91 and 98dafca.",
+                design="7/C11", technique="Coq proof (group-wise fold over the operand table, unit-weight activation lemmas) + exact differential correspondence + independent aggregation oracle",
+                note=NOTE_TB + " Modelled as coded: the free-variable path re-creates a grounding's private neuron from the world default when its instance count changes; bounds written into a quantifier's table from outside are not modelled (known finding partial-quantifier-two-stores)."),
+    "C12": dict(text="Theorems C12_sound_instantiation (the proposals of a quantifier's downward step are those of the n-ary unit-weight And/Or inverse over the group of instances; for any instance values inside their bounds whose conjunction/disjunction lies inside the quantifier's bounds every proposal still contains its instance's value: a consistent table keeps its reading, a FALSE Forall does not falsify all instances, a TRUE Exists does not verify all), C12_forall_lower_reaches_instances (axiom Forall makes each instance TRUE), C12_fully_quantified_is_nary. Holds for the tree after fix commit 17358dd.",
+                design="7/C12", technique="Coq proof (reuse of the n-ary downward soundness lemma with unit weights) + exact differential correspondence + hidden ground interpretation monitor",
+                note=NOTE_TB + " Not modelled: downward through a quantifier whose operand is itself a quantifier (covered only by corpus witnesses); a downward() on a grounding that never had an upward() raises KeyError in the implementation (observed, reproduced by the model as an error outcome)."),
+})
 NA_REASON = "check not built yet in this round (planned: see DESIGN.md section 7); not claimed"
 checks, na = [], []
 for p in props:
